@@ -2,10 +2,17 @@ package sigs
 
 import (
 	"bytes"
+	"context"
 	"encoding/json"
+	"errors"
 	"flag"
 	"fmt"
+	"io"
+	"net/http"
+	"net/http/httptest"
 
+	"github.com/ipni/go-libipni/apierror"
+	ingestclient "github.com/ipni/go-libipni/ingest/client"
 	"github.com/ipni/go-libipni/ingest/model"
 	"github.com/libp2p/go-libp2p/core/peer"
 	"github.com/libp2p/go-libp2p/core/record"
@@ -24,6 +31,7 @@ type reqCase struct {
 		Named string `json:"named"`
 		Key   string `json:"key"`
 		Alt   string `json:"alt"`
+		Via   string `json:"via"`
 	} `json:"case"`
 	Out struct {
 		Ok      bool   `json:"ok"`
@@ -218,6 +226,28 @@ func RunC18(args []string) *rep.Report {
 	flipEvery := fs.Int("flip-every", 5, "alter every n-th byte of every honest sealed request (1 = every byte)")
 	fs.Parse(args)
 	r := rep.New()
+	// server side of the ingest client: the endpoint decides the reader
+	var srvObs reqObs
+	srvKt := ""
+	mux := http.NewServeMux()
+	serve := func(kind string) http.HandlerFunc {
+		return func(w http.ResponseWriter, req *http.Request) {
+			body, _ := io.ReadAll(req.Body)
+			srvObs = readReq(kind, body, srvKt)
+			if !srvObs.Ok {
+				http.Error(w, string(apierror.EncodeError(apierror.New(errors.New(srvObs.Err+srvObs.Panic), http.StatusBadRequest))), http.StatusBadRequest)
+			}
+		}
+	}
+	mux.HandleFunc("/ingest/content", serve("ingest"))
+	mux.HandleFunc("/register", serve("register"))
+	srv := httptest.NewServer(mux)
+	defer srv.Close()
+	icl, ierr := ingestclient.New(srv.URL)
+	if ierr != nil {
+		r.SetExtra("read_error", ierr.Error())
+		return r
+	}
 	idx, flips, execs := 0, 0, 0
 	err := rep.ReadNDJSON(*file, func(line []byte) error {
 		rc := new(reqCase)
@@ -230,6 +260,36 @@ func RunC18(args []string) *rep.Report {
 			r.Sample(rc)
 		}
 		for _, kt := range []string{"ed25519", "secp256k1", "ecdsa", "rsa"} {
+			if rc.Case.Via == "client" {
+				// made and posted by the real ingest client, read by the server's reader for that endpoint
+				srvObs, srvKt = reqObs{}, kt
+				pid, k := ids.PeerT(rc.Case.Named, kt), ids.KeyT(rc.Case.Key, kt)
+				var cerr error
+				if rc.Case.Made == "ingest" {
+					cerr = icl.IndexContent(context.Background(), pid, k, reqMh("c1"), []byte("ctx-c1"), reqMD, contentAddrs("c1"))
+				} else {
+					cerr = icl.Register(context.Background(), pid, k, contentAddrs("c1"))
+				}
+				execs++
+				ob := srvObs
+				key := ""
+				switch {
+				case ob.Panic != "":
+					key = "panic"
+				case ob.Ok && !rc.Out.Ok:
+					key = "accepted:signed-by-other-identity"
+				case !ob.Ok && rc.Out.Ok:
+					key = "own-request-rejected"
+				case ob.Ok && (ob.Named != rc.Out.Named || ob.Content != rc.Out.Content):
+					key = "fields-changed"
+				case (cerr == nil) != ob.Ok:
+					key = "client-outcome"
+				}
+				if key != "" {
+					r.Diverge(rep.Divergence{Key: key, Case: rc, Expected: rc.Out, Observed: ob, Detail: fmt.Sprintf("through the ingest client, key type %s, client error: %v", kt, cerr)})
+				}
+				continue
+			}
 			data, err := craftReq(rc, kt)
 			if err != nil {
 				r.Inconclusive++
